@@ -28,7 +28,7 @@ func init() {
 
 func c06(r *Run) {
 	w := r.W
-	ro := rolesOf(w)
+	ro := r.roles()
 	px := protoEffects(w)
 	kP := ro.kProcessing
 
@@ -46,7 +46,7 @@ func c06(r *Run) {
 		}
 	}
 	if n < 3 {
-		broken("ANCHOR-LOST C06: only %d OnRequest/OnConnect invocation sites", n)
+		r.absentf(" C06: only %d OnRequest/OnConnect invocation sites", n)
 	}
 	// the task is only ever started by onProcess (C05.R1 shows it starts with the lock)
 	for _, f := range w.Funcs {
@@ -143,7 +143,7 @@ func c06(r *Run) {
 		isBookAck := func(i ssa.Instruction) bool { m, ok := callOnField(i, "connection", "inputBuffer"); return ok && m == "bookAck" }
 		bookAcks := findIns(fn, isBookAck)
 		if len(bookAcks) == 0 {
-			broken("ANCHOR-LOST C06: inputAck does not call bookAck")
+			r.absentf(" C06: inputAck does not call bookAck")
 		}
 		for _, site := range findIns(fn, func(i ssa.Instruction) bool { return isCall(i, ro.onRequestM) }) {
 			r.precedes("C06.R3:publish-before-try:"+siteKey(w, site), "the poller publishes the received bytes (bookAck -> atomic length) before it tries to start the handler: the handler's re-check after unlock then sees them", fn, site, isBookAck, nil, "bookAck dominates onRequest()")
